@@ -27,7 +27,7 @@ var c07Versions = [][2]int{{2, 0}, {1, 1}, {1, 0}}
 var c07ContentTypes = []string{"exact", "-", "application/octet-stream", "exact;charset=utf-8", "application/grpc+thrift", "APPLICATION/PROTO", "application/connect+", "bare"}
 var c07Encodings = []string{"-", "gzip", "zstd", "", "identity"}
 var c07Accepts = []string{"-", "gzip", "zstd, gzip", "", ",,,", "identity"}
-var c07Timeouts = []string{"-", "1S", "100", "", "1", "S", "1x", "-1S", "999999999S", "12345678901", "1 S", "١S", "18446744073709551616n"}
+var c07Timeouts = []string{"-", "1S", "100", "", "1", "S", "1x", "-1S", "999999999S", "12345678901", "1 S", "١S", "18446744073709551616n", "100000000H", "123456789012345678H", "100000000m", "99999999H"}
 
 type c07Body struct {
 	name string
@@ -372,7 +372,7 @@ func c07Check(c *ev.Collector, k c07Case) {
 func TestC07(t *testing.T) {
 	c := ev.New("C07")
 	defer func() { _ = c.Finish() }()
-	c.SetRule("grammar-bounded exhaustive request enumeration into the real Handler.ServeHTTP: at most D simultaneous deviations from a valid request over {5 methods, 3 HTTP versions, 8 Content-Type forms, 5 encodings, 6 accept lists, 13 timeout strings, ~20 bodies (truncation, lying length prefixes, every flag byte, corrupt gzip, undecodable payload, oversize, second message, trailing garbage, zero-length)} x handler with/without read limit, plus every byte string of length <= L over {00,01,02,80,'{','}','\"'} as the body, x {connect,grpc,grpcweb} x {proto,json} x 4 RPC kinds; oracle: returns (bubble), no panic, response well-formed under refwire for the selected protocol or a bare 405/415/505, user code at most once and only with messages that decode from the request, documented codes for unknown compression / invalid timeout / undecodable payload / oversize, malformed framing never answered as success; distinct = full tuple")
+	c.SetRule("grammar-bounded exhaustive request enumeration into the real Handler.ServeHTTP: at most D simultaneous deviations from a valid request over {5 methods, 3 HTTP versions, 8 Content-Type forms, 5 encodings, 6 accept lists, 17 timeout strings (incl. 9- and 18-digit values of every magnitude class), ~20 bodies (truncation, lying length prefixes, every flag byte, corrupt gzip, undecodable payload, oversize, second message, trailing garbage, zero-length)} x handler with/without read limit, plus every byte string of length <= L over {00,01,02,80,'{','}','\"'} as the body, x {connect,grpc,grpcweb} x {proto,json} x 4 RPC kinds; oracle: returns (bubble), no panic, response well-formed under refwire for the selected protocol or a bare 405/415/505, user code at most once and only with messages that decode from the request, documented codes for unknown compression / invalid timeout / undecodable payload / oversize, malformed framing never answered as success; distinct = full tuple")
 	c.Assume("requests are handed to ServeHTTP directly", "a 64 KiB read limit guards the raw-body and lying-prefix cases against unbounded allocation (DESIGN 3.7)", "request flags other than 0/1 and trailing bytes after a unary message are recorded but not judged (documents silent)")
 	if ev.ReplayFile() != "" {
 		var k c07Case
